@@ -330,11 +330,28 @@ def reached_under(body, classify, is_target):
     out = []
 
     def expr_targets(e, pc):
-        for x in walk(e):
-            if x.get('kind') in ('LambdaExpr',):
-                continue
-            if is_target(x):
-                out.append((x, pc))
+        """targets inside an expression; the right operand of && / || and the arms of ?: are reached conditionally"""
+        if not isinstance(e, dict):
+            return
+        if is_target(e):
+            out.append((e, pc))
+        k = e.get('kind')
+        if k == 'LambdaExpr':
+            return
+        c = kids(e)
+        if k == 'BinaryOperator' and e.get('opcode') in ('&&', '||') and len(c) == 2:
+            f = cond_formula(c[0], classify)
+            expr_targets(c[0], pc)
+            expr_targets(c[1], ('and', pc, f if e.get('opcode') == '&&' else ('not', f)))
+            return
+        if k == 'ConditionalOperator' and len(c) == 3:
+            f = cond_formula(c[0], classify)
+            expr_targets(c[0], pc)
+            expr_targets(c[1], ('and', pc, f))
+            expr_targets(c[2], ('and', pc, ('not', f)))
+            return
+        for x in c:
+            expr_targets(x, pc)
 
     def stmt(s, pc):
         """returns the path condition behind s"""
@@ -376,17 +393,22 @@ def reached_under(body, classify, is_target):
                     else:
                         expr_targets(x, pc)
             return pc
-        if is_target(s):
-            out.append((s, pc))
         if k == 'ReturnStmt':
+            if is_target(s):
+                out.append((s, pc))
             for c in kids(s):
                 expr_targets(c, pc)
             return ('false',)
         if k in ('SwitchStmt', 'GotoStmt', 'LabelStmt', 'CXXTryStmt', 'BreakStmt', 'ContinueStmt'):
             if any(is_target(x) for x in walk(s)) or k != 'CXXTryStmt':
                 raise Untranslatable('control flow this analysis does not follow (%s)' % k)
-        for c in kids(s):
-            expr_targets(c, pc)
+        if k in ('DeclStmt', 'NullStmt') or not kids(s):
+            if is_target(s):
+                out.append((s, pc))
+            for c in kids(s):
+                expr_targets(c, pc)
+        else:
+            expr_targets(s, pc)
         return pc
 
     stmt(body, ('true',))
